@@ -2,8 +2,8 @@
    Pinned statements only; proofs in proofs/C09P.v (and ConsistP.v). tau = 1e-3 is the code's own
    tolerance constant (relative or absolute, as `almost_le` / `almost_ge` are written). *)
 From Coq Require Import Reals List Bool.
-From AltModel Require Import Num Interp Powertrain Loco Consist.
-From AltProofs Require Import NumR PowertrainP LocoP C08P ConsistP C09P.
+From AltModel Require Import Num Interp Powertrain Loco Consist Resist Braking TrainStep TrainFull.
+From AltProofs Require Import NumR PowertrainP LocoP C08P ConsistP C09P TrainFullP WholeSplitP.
 Import ListNotations.
 Open Scope R_scope.
 
@@ -83,3 +83,19 @@ Theorem C09_tractive_power_within_published_limit : forall (l l' : Loco (F:=R)) 
   exists l1, loco_pre_step l dt on = Ok l1 /\
     (pwr < ls_pwr_out_max (lc_state l1) * (1 + / 100000000) \/ pwr < ls_pwr_out_max (lc_state l1) + / 100000000).
 Proof. exact loco_step_within_published. Qed.
+
+(* ---- the WHOLE train simulations (coq/model/TrainFull.v; tied to the real step()/walk() by check C11): with limit
+   checking on, the wheel power the train model asks of its consist in an accepted whole step lies inside the traction
+   and dynamic-braking limits the consist published for that very step (c2 = the consist after set_pwr_aux /
+   set_cur_pwr_max_out, the state the train model read its limits from) ---- *)
+Theorem C09_whole_speed_limit_step_request_within : forall (e : Env (F:=R)) pts fmax (x x' : SLStateR * ConsistR),
+  sl_full_step e pts fmax x = Ok x' -> cn_assert_limits (snd x) = true ->
+  exists c2, consist_set_cur_pwr_max_out (consist_set_pwr_aux (snd x) true) (k_dt (ts_k (sl_st (fst x)))) = Ok c2 /\
+    sl_pwr x' <= cs_pwr_out_max (cn_state c2) /\ - sl_pwr x' <= cs_pwr_dyn_brake_max (cn_state c2).
+Proof. exact sl_full_step_request_within. Qed.
+
+Theorem C09_whole_set_speed_step_request_within : forall (e : Env (F:=R)) times speeds fmax (x x' : (TStateR * ResCache) * ConsistR),
+  ss_full_step e times speeds fmax x = Ok x' -> cn_assert_limits (snd x) = true ->
+  exists c2 dt, consist_set_cur_pwr_max_out (consist_set_pwr_aux (snd x) true) dt = Ok c2 /\
+    ss_pwr x' <= cs_pwr_out_max (cn_state c2) /\ - ss_pwr x' <= cs_pwr_dyn_brake_max (cn_state c2).
+Proof. exact ss_full_step_request_within. Qed.
